@@ -17,7 +17,7 @@ Section Kernels.
   Proof. unfold nr_fprime0; num_R. reflexivity. Qed.
   Lemma K_nr_niter0 : nr_niter0 = 0%Z. Proof. reflexivity. Qed.
   Lemma K_nr_flags :
-    nr_flag0 = 0%Z /\ nr_flag_nan = 2%Z /\ nr_flag_lo = (-2)%Z /\ nr_flag_hi = (-1)%Z /\ nr_flag_maxed = 1%Z.
+    nr_flag0 = 0%Z /\ nr_flag_nan = 2%Z /\ nr_flag_fnan = 2%Z /\ nr_flag_lo = (-2)%Z /\ nr_flag_hi = (-1)%Z /\ nr_flag_maxed = 1%Z.
   Proof. repeat split. Qed.
   Lemma K_nr_cond_num tol st fp :
     nr_cond_num N tol st fp = true <-> (tol < Rabs st \/ 1/10 < Rabs fp).
@@ -48,6 +48,9 @@ Section Kernels.
   Proof. unfold nr_clip_hi; num_R. apply Rltb_true. Qed.
   Lemma K_nr_niter_inc n : nr_niter_inc n = (n + 1)%Z. Proof. reflexivity. Qed.
   Lemma K_nr_reeval b : nr_reeval b = negb b. Proof. reflexivity. Qed.
+  (* over the reals no value is NaN: the NaN-value guard never fires (the IEEE path: P_MinimizeNaN.v) *)
+  Lemma K_nr_f_nan f : nr_f_nan N f = false. Proof. reflexivity. Qed.
+  Lemma K_scan_best_nan f : scan_best_nan N f = false. Proof. reflexivity. Qed.
   Lemma K_nr_maxed n m : nr_maxed n m = true <-> n = m.
   Proof. unfold nr_maxed. apply Z.eqb_eq. Qed.
   Lemma K_nr_converged fl : nr_converged fl = true <-> (fl <= 0)%Z.
@@ -119,12 +122,12 @@ Section NRProofs.
   Qed.
 
   Lemma nr_finish_fields niter ns st flag ab fcur :
-    let r := nr_finish obj max_steps niter ns st flag ab fcur in
+    let r := nr_finish N obj max_steps niter ns st flag ab fcur in
     r_x r = ns /\ r_niter r = niter /\ r_step r = st /\
     r_flag r = (if Z.eqb niter max_steps then 1%Z else flag) /\
     r_f r = (if ab then fcur else F ns).
   Proof.
-    unfold nr_finish. rewrite K_nr_reeval. unfold nr_maxed, nr_flag_maxed.
+    unfold nr_finish. rewrite K_nr_reeval, K_nr_f_nan. unfold nr_maxed, nr_flag_maxed.
     destruct ab; cbn [negb r_x r_f r_flag r_niter r_step]; repeat split.
   Qed.
 
@@ -132,7 +135,7 @@ Section NRProofs.
   Lemma nr_exit_cond niter ns st fp :
     (niter <= max_steps)%Z -> state_ok ns st fp ->
     nr_cond_num N tol st fp && nr_cond_iter niter max_steps = false ->
-    nr_post niter (nr_finish obj max_steps niter ns st nr_flag0 false (nzero N)).
+    nr_post niter (nr_finish N obj max_steps niter ns st nr_flag0 false (nzero N)).
   Proof.
     intros Hle Hst Ec.
     pose proof (nr_finish_fields niter ns st nr_flag0 false (nzero N)) as Hf. cbv zeta in Hf.
@@ -198,7 +201,7 @@ Section NRProofs.
                 unfold nr_post. rewrite Hx, Hn, Hs, Hfl, Hff. unfold nr_flag_hi. subst ns. rewrite HF1, HF2, HF.
                 repeat split; intros; try lia; try discriminate; auto.
           -- intros _ Hin. cbn [tr_cons r_x].
-             match goal with |- context [nr_finish obj max_steps niter ns ?s ?fl true fv] =>
+             match goal with |- context [nr_finish N obj max_steps niter ns ?s ?fl true fv] =>
                pose proof (nr_finish_fields niter ns s fl true fv) as Hf end.
              cbv zeta in Hf. destruct Hf as (Hx & _). rewrite Hx. exact Hin.
         * (* a Newton step *)
@@ -217,7 +220,7 @@ Section NRProofs.
       + injection Hrun as <-. split.
         * apply (nr_exit_cond niter ns st fp); assumption.
         * intros _ Hin.
-          match goal with |- context [nr_finish obj max_steps niter ns st ?fl false ?z] =>
+          match goal with |- context [nr_finish N obj max_steps niter ns st ?fl false ?z] =>
             pose proof (nr_finish_fields niter ns st fl false z) as Hf end.
           cbv zeta in Hf. destruct Hf as (Hx & _). rewrite Hx. exact Hin.
   Qed.
